@@ -27,7 +27,7 @@ from vf import audit, cachelib, canon, env, gen, harness, synth
 ID = "C09"
 LEVEL = "fault_enumeration"
 RULE = ("products: one level-1.5 and one level-1.1 product with 2 images (local files). prefix states: lengths "
-        "{0,1,2,len/2,len-2,len-1,len} + every 48th (quick) or every length (thorough) x location {user, adjacent, both} x image; "
+        "{0,1,2,len/2,len-2,len-1,len} + every cut next to / inside a non-ASCII byte + every 48th (quick) or every length (thorough) x location {user, adjacent, both} x image; "
         "real kills: 12 (quick) / 160 (thorough) children over the three modes at sampled limits; two-writer interleavings with "
         "2 (quick) / up to 4 (thorough) chunks. evaluations = states read back; non-trivial = state that is not the "
         "complete document and not 'absent'; distinct = distinct (source, location, content class) with content classes "
@@ -187,7 +187,12 @@ def run_case(i, tier, seed):
         doc = E.docs[img]
         if kind == "prefix":
             sl, nslices, step = par
-            lengths = sorted(set(range(0, len(doc) + 1, step)) | {0, 1, 2, len(doc) // 2, len(doc) - 2, len(doc) - 1, len(doc)})
+            lengths = set(range(0, len(doc) + 1, step)) | {0, 1, 2, len(doc) // 2, len(doc) - 2, len(doc) - 1, len(doc)}
+            # structural cut points: before, inside and after every non-ASCII (multi-byte) character of the document
+            for pos, byte in enumerate(doc):
+                if byte >= 0x80:
+                    lengths |= {pos, pos + 1}
+            lengths = sorted(lengths)
             mine = lengths[sl::nslices]
             for j, L in enumerate(mine):
                 obs["prefix_lengths"] += 1
